@@ -1247,6 +1247,17 @@ SPECS = [
          var_types={"count": INT, "norm_sqr": RAT, "stddev": RAT}, assume={"stddev.ndim >= 2": False},
          outputs=["stddev", "count"], output_types={"stddev": NRAT, "count": INT},
          ignore_return_value=True, select=_whole, owners=["C04"]),
+    # ---- C12: AreaDefinition.__eq__ ---------------------------------------------------------------------------------
+    dict(name="area_eq", file="pyresample/geometry.py", func="AreaDefinition.__eq__",
+         params=[("self.area_extent", tup(RAT, RAT, RAT, RAT)), ("other.area_extent", tup(RAT, RAT, RAT, RAT)),
+                 ("crs_eq", BOOL), ("shape_eq", BOOL)],
+         expr_params={"self.crs == other.crs": "crs_eq", "self.shape == other.shape": "shape_eq"}, returns=BOOL,
+         select=lambda fn: fn.body[-1].body,
+         guard=lambda fn: isinstance(fn.body[-1], ast.Try) and len(fn.body[-1].handlers) == 1 and not fn.body[-1].orelse
+         and not fn.body[-1].finalbody and ast.unparse(fn.body[-1].handlers[0].type) == "AttributeError"
+         and [ast.unparse(x) for x in fn.body[-1].handlers[0].body] == ["return super().__eq__(other)"]
+         and all(isinstance(x, ast.Expr) and isinstance(x.value, ast.Constant) for x in fn.body[:-1]),
+         owners=["C12"]),
     # ---- C05: when is the data mask used -------------------------------------------------------------
     dict(name="nn_mask_decision", file="pyresample/future/resamplers/nearest.py", func="KDTreeNearestXarrayResampler._get_area_mask",
          mode="fragment", params=[("mask_area", opt(BOOL)), ("is_swath", BOOL)],
